@@ -355,6 +355,7 @@ type script struct {
 	rtOpt    int
 	explicit polDesc
 	useBind  bool // query made with Session.Bind instead of Session.Query
+	observer bool // a QueryObserver / BatchObserver is installed
 	bindSet  bool
 }
 
@@ -705,7 +706,28 @@ func (rc *runCtx) nextOutcomeLocked() oc {
 	return c
 }
 
-const maxExecs = 300
+const maxExecs = 64
+
+// runawayMsg: the statement reached servers maxExecs times (the script is cut short there)
+func runawayMsg(sc *script) string {
+	allowed := "no bound (scripted policy)"
+	if th, ok := sc.pol.threshold(); ok {
+		a := th - int64(sc.a0)
+		if a < 0 {
+			a = 0
+		}
+		runs := int64(1)
+		if sc.idem && sc.spk > 0 {
+			runs = int64(sc.spk) + 1
+		}
+		allowed = fmt.Sprintf("at most %d", runs+a)
+	} else if sc.pol.kind == 0 {
+		allowed = "at most 1 per execution"
+	} else {
+		allowed = fmt.Sprintf("at most 1 + %d answers", len(sc.pol.answers))
+	}
+	return fmt.Sprintf("the statement reached servers %d times and was still being retried, policy %s allows %s (Attempts() stuck?); the script was cut short", maxExecs, sc.pol, allowed)
+}
 
 func (rc *runCtx) execute(ctx context.Context, host int, cons gocql.Consistency) (error, bool) {
 	rc.mu.Lock()
@@ -1271,7 +1293,7 @@ func (h *harness) evalSeq(sc *script, rc *runCtx, res gocql.VerifC13Result, pan 
 		return
 	}
 	if rc.runaway {
-		o.Violate(idx, "budget", "", fmt.Sprintf("more than %d attempts were sent; the script was cut short", maxExecs), in)
+		o.Violate(idx, "budget", "", runawayMsg(sc), in)
 		return
 	}
 	// exactly one result
@@ -1405,7 +1427,7 @@ func (h *harness) runFree(sc *script, cancelAfter time.Duration) {
 		return
 	}
 	if rc.runaway {
-		o.Violate(idx, "budget", "", fmt.Sprintf("more than %d attempts were sent; the script was cut short", maxExecs), in)
+		o.Violate(idx, "budget", "", runawayMsg(sc), in)
 		return
 	}
 	view := rc.classify(res)
@@ -1604,7 +1626,7 @@ func (h *harness) runControlledWith(sc *script, sched []int, ticks bool, cancelA
 	in["cancel_at"] = cancelAt
 	if rc.runaway {
 		o.Count(kind + "-runaway")
-		o.Violate(-1, "budget", "", fmt.Sprintf("more than %d attempts were sent; the script was cut short", maxExecs), in)
+		o.Violate(-1, "budget", "", runawayMsg(sc), in)
 		return
 	}
 	if stuck || pan != nil {
@@ -1902,6 +1924,7 @@ func main() {
 				e.run(g.e2eScript(), "seq-end-to-end")
 			}
 			e.runRetryOptions()
+			e.runAttemptCounting()
 			// the context ends while a PREPARE is outstanding (statement new to the host), retries still allowed
 			np := 16
 			if o.Scale > 1 {
